@@ -379,7 +379,7 @@ impl Explorer {
                             self.rep.sample(s);
                         }
                     }
-                    if self.states >= cfg.max_states {
+                    if self.states >= cfg.max_states || self.rep.saturated() {
                         self.capped = true;
                         break;
                     }
@@ -390,7 +390,11 @@ impl Explorer {
             }
             self.level_sizes.push(new_here);
             if self.capped {
-                self.rep.caps.push(format!("state cap {} hit at depth {} (depth {} fully explored)", cfg.max_states, depth, depth - 1));
+                if self.rep.saturated() {
+                    self.rep.caps.push(format!("stopped after {} distinct violations at depth {}", self.rep.violations.len(), depth));
+                } else {
+                    self.rep.caps.push(format!("state cap {} hit at depth {} (depth {} fully explored)", cfg.max_states, depth, depth - 1));
+                }
                 break;
             }
             frontier = next;
